@@ -276,6 +276,7 @@ type outcome struct {
 	timedOut     bool
 	stuck        string // which goroutines had not finished when the watchdog fired
 	fwdDelivered int64
+	revDelivered int64
 }
 
 func runStream(c Case, quiet time.Duration) (o outcome) {
@@ -526,6 +527,7 @@ wait:
 		}
 		o.stuck = strings.Join(s, ",")
 		o.fwdDelivered = fwdProgress.Load()
+		o.revDelivered = revProgress.Load()
 		break wait
 	}
 	tick.Stop()
@@ -650,6 +652,13 @@ func judge(c Case, o outcome) *failure {
 	if o.timedOut {
 		if strings.Contains(o.stuck, "forward-reader") && !strings.Contains(o.stuck, "forward-writer") && o.fwdDelivered >= int64(len(want)) {
 			return &failure{"C10/end-of-stream-not-delivered/ending=" + c.Ending, fmt.Sprintf("writer finished (%s) and all %d bytes were delivered, but the peer's Read never returned end-of-stream", c.Ending, len(want))}
+		}
+		if o.stuck == "reverse-reader" && o.revDelivered >= int64(len(revModel(c))) {
+			e := "peer-close"
+			if c.Duplex {
+				e = "peer-closewrite"
+			}
+			return &failure{"C10/end-of-stream-not-delivered/ending=" + e, fmt.Sprintf("the peer wrote %d bytes back and closed (%s); all bytes were delivered but Read never returned end-of-stream", o.revDelivered, e)}
 		}
 		return &failure{"C10/delivery-stalled/ending=" + c.Ending, fmt.Sprintf("still running: %s; forward bytes delivered %d of %d", o.stuck, o.fwdDelivered, len(want))}
 	}
